@@ -88,80 +88,93 @@ dereference sees is the pointee **after** all in-place mutation.  The model ther
 (`vis`) and the pointee contents (`heap`, entered when the recursive call on that node has returned)
 side by side. -/
 
-inductive Tree where
-  | node (fn : Bytes) (kids : List Tree)
+inductive Tree (α : Type) where
+  | node (inc : α) (fn : Bytes) (body : α) (kids : List (Tree α))
   deriving Repr, Inhabited, BEq
 
-def Tree.fn : Tree → Bytes | .node f _ => f
-def Tree.kids : Tree → List Tree | .node _ k => k
+/- A node is one `*parser.Include` together with the `*parser.Thrift` it references:
+   `inc`  = the Include's own members (Path, Used),
+   `fn`   = Reference.Filename,
+   `body` = every other member of the referenced Thrift (namespaces, definitions, Name2Category, …),
+   `kids` = Reference.Includes.
+   The root of a request's AST is a node whose `inc` is unused. -/
+
+variable {α : Type}
+
+def Tree.inc : Tree α → α | .node i _ _ _ => i
+def Tree.fn : Tree α → Bytes | .node _ f _ _ => f
+def Tree.body : Tree α → α | .node _ _ b _ => b
+def Tree.kids : Tree α → List (Tree α) | .node _ _ _ k => k
 
 /-- "THRIFGO_REF:" (sic) -/
 def refPrefix : Bytes := [84, 72, 82, 73, 70, 71, 79, 95, 82, 69, 70, 58]
 
-abbrev Heap := Bytes → Option Tree
+abbrev Heap (α : Type) := Bytes → Option (Tree α)
 
-def Heap.empty : Heap := fun _ => none
-def Heap.ins (k : Bytes) (v : Tree) (h : Heap) : Heap := fun x => if x = k then some v else h x
+def Heap.empty : Heap α := fun _ => none
+def Heap.ins (k : Bytes) (v : Tree α) (h : Heap α) : Heap α := fun x => if x = k then some v else h x
 
-structure CState where
+structure CState (α : Type) where
   vis : List Bytes
-  heap : Heap
+  heap : Heap α
 
 mutual
 /-- `compressThriftInclude(incl.Reference, m)` seen from the caller: the compressed include list of `p` -/
-def compressNode : Tree → CState → List Tree × CState
-  | .node _ ks, s => compressKids ks s
-/-- the loop of compressThriftInclude over `p.Includes` (recursion into first occurrences) -/
-def compressKids : List Tree → CState → List Tree × CState
+def compressNode (dflt : α) : Tree α → CState α → List (Tree α) × CState α
+  | .node _ _ _ ks, s => compressKids dflt ks s
+/-- the loop of compressThriftInclude over `p.Includes` (recursion into first occurrences);
+`dflt` = the members of `&parser.Thrift{Filename: …}` other than the file name -/
+def compressKids (dflt : α) : List (Tree α) → CState α → List (Tree α) × CState α
   | [], s => ([], s)
   | k :: r, s =>
     if s.vis.contains k.fn then
-      -- visited, only keep the filename for mapping
-      let (r', s') := compressKids r s
-      (.node (refPrefix ++ k.fn) [] :: r', s')
+      -- visited, only keep the filename for mapping (the Include itself stays)
+      let (r', s') := compressKids dflt r s
+      (.node k.inc (refPrefix ++ k.fn) dflt [] :: r', s')
     else
       -- mark it's visited, recurse
-      let (ks', s1) := compressNode k { s with vis := k.fn :: s.vis }
-      let s2 : CState := { vis := s1.vis, heap := s1.heap.ins k.fn (.node k.fn ks') }
-      let (r', s3) := compressKids r s2
-      (.node k.fn ks' :: r', s3)
+      let (ks', s1) := compressNode dflt k { s with vis := k.fn :: s.vis }
+      let s2 : CState α := { vis := s1.vis, heap := s1.heap.ins k.fn (.node k.inc k.fn k.body ks') }
+      let (r', s3) := compressKids dflt r s2
+      (.node k.inc k.fn k.body ks' :: r', s3)
 end
 
 /-- `compressThriftInclude(p, nil)`: the compressed AST and the pointees of the memo map -/
-def compress (t : Tree) : Tree × Heap :=
-  let (ks', s) := compressKids t.kids { vis := [], heap := Heap.empty }
-  (.node t.fn ks', s.heap)
+def compress (dflt : α) (t : Tree α) : Tree α × Heap α :=
+  let (ks', s) := compressKids dflt t.kids { vis := [], heap := Heap.empty }
+  (.node t.inc t.fn t.body ks', s.heap)
 
 mutual
-def collectNode : Tree → Heap → Heap
-  | .node _ ks, m => collectKids ks m
+def collectNode : Tree α → Heap α → Heap α
+  | .node _ _ _ ks, m => collectKids ks m
 /-- collectThriftInclude -/
-def collectKids : List Tree → Heap → Heap
+def collectKids : List (Tree α) → Heap α → Heap α
   | [], m => m
   | k :: r, m =>
     if hasPrefix k.fn refPrefix then collectKids r m
     else collectKids r (collectNode k (m.ins k.fn k))
 end
 
-inductive DRes (α : Type) where
-  | ok (a : α)
+inductive DRes (β : Type) where
+  | ok (a : β)
   | panic          -- panic("not found ref: " + fn)
   | fuel           -- the model's recursion bound was hit (Go: unbounded recursion)
   deriving Repr, BEq
 
-/-- one level of decompressThriftInclude's loop; `dk` decompresses the includes of a referenced file -/
-def decListWith (dk : List Tree → DRes (List Tree)) (m : Heap) : List Tree → DRes (List Tree)
+/-- one level of decompressThriftInclude's loop; `dk` decompresses the includes of a referenced file.
+A reference is replaced by the referenced Thrift (`incl.Reference = m[fn]`), the Include stays. -/
+def decListWith (dk : List (Tree α) → DRes (List (Tree α))) (m : Heap α) : List (Tree α) → DRes (List (Tree α))
   | [] => .ok []
-  | .node fn ks :: r =>
+  | .node inc fn body ks :: r =>
     match stripPrefix fn refPrefix with
     | some fn' =>
       match m fn' with
       | none => .panic
-      | some (.node g gks) =>
+      | some (.node _ g gbody gks) =>
         match dk gks with
         | .ok gks' =>
           match decListWith dk m r with
-          | .ok r' => .ok (.node g gks' :: r')
+          | .ok r' => .ok (.node inc g gbody gks' :: r')
           | e => e
         | .panic => .panic
         | .fuel => .fuel
@@ -169,59 +182,60 @@ def decListWith (dk : List Tree → DRes (List Tree)) (m : Heap) : List Tree →
       match dk ks with
       | .ok ks' =>
         match decListWith dk m r with
-        | .ok r' => .ok (.node fn ks' :: r')
+        | .ok r' => .ok (.node inc fn body ks' :: r')
         | e => e
       | .panic => .panic
       | .fuel => .fuel
 
 /-- decompressThriftInclude's recursion with a non-nil map; fuel = nesting depth of the result -/
-def decompressKids : Nat → Heap → List Tree → DRes (List Tree)
+def decompressKids : Nat → Heap α → List (Tree α) → DRes (List (Tree α))
   | _, _, [] => .ok []
   | 0, _, _ :: _ => .fuel
   | f+1, m, l => decListWith (decompressKids f m) m l
 
 /-- `decompressThriftInclude(p, m)`; `none` = nil map (the plugin side: collect first) -/
-def decompress (fuel : Nat) (m : Option Heap) (t : Tree) : DRes Tree :=
+def decompress (fuel : Nat) (m : Option (Heap α)) (t : Tree α) : DRes (Tree α) :=
   let h := match m with
     | some h => h
     | none => collectKids t.kids Heap.empty
   match decompressKids fuel h t.kids with
-  | .ok ks => .ok (.node t.fn ks)
+  | .ok ks => .ok (.node t.inc t.fn t.body ks)
   | .panic => .panic
   | .fuel => .fuel
 
 mutual
-def Tree.size : Tree → Nat
-  | .node _ ks => sizeK ks + 1
-def sizeK : List Tree → Nat
+def Tree.size : Tree α → Nat
+  | .node _ _ _ ks => sizeK ks + 1
+def sizeK : List (Tree α) → Nat
   | [] => 0
   | k :: r => k.size + sizeK r
 end
 
 mutual
-def Tree.depth : Tree → Nat
-  | .node _ ks => depthK ks
+def Tree.depth : Tree α → Nat
+  | .node _ _ _ ks => depthK ks
 /-- the fuel `decompressKids` needs for a list of includes -/
-def depthK : List Tree → Nat
+def depthK : List (Tree α) → Nat
   | [] => 0
   | k :: r => max (k.depth + 1) (depthK r)
 end
 
 mutual
 /-- all include nodes below (not including) the root, in DFS pre-order -/
-def Tree.descs : Tree → List Tree
-  | .node _ ks => nodesK ks
-def nodesK : List Tree → List Tree
+def Tree.descs : Tree α → List (Tree α)
+  | .node _ _ _ ks => nodesK ks
+def nodesK : List (Tree α) → List (Tree α)
   | [] => []
   | k :: r => k :: (k.descs ++ nodesK r)
 end
 
-/-- equal filenames ⇒ equal subtrees, for all included files -/
-def Consistent (t : Tree) : Prop :=
-  ∀ a b, a ∈ t.descs → b ∈ t.descs → a.fn = b.fn → a = b
+/-- equal filenames ⇒ the same file: equal contents and equal includes (the `Include`s that lead to
+it may differ: different path literals, different `Used`) -/
+def Consistent (t : Tree α) : Prop :=
+  ∀ a b, a ∈ t.descs → b ∈ t.descs → a.fn = b.fn → a.body = b.body ∧ a.kids = b.kids
 
 /-- no included file's name starts with the reference marker -/
-def NoRef (t : Tree) : Prop := ∀ a, a ∈ t.descs → stripPrefix a.fn refPrefix = none
+def NoRef (t : Tree α) : Prop := ∀ a, a ∈ t.descs → stripPrefix a.fn refPrefix = none
 
 /-! ## data trailer (plugin.go:217-237) -/
 
